@@ -76,17 +76,18 @@ package quic
 //@   modifies packet[0:len(packet)]
 
 //@ func extractCryptoFrames
-//@   props C03
+//@   props C03 C17
 //@   requires r != nil && src(r) == r && reliable(r)
-//@   ensures isnil(ret1) ==> forall(i, 0, len(ret0), ret0[i].Offset >= 0 && len(ret0[i].Data) <= 262144)
+//@   ensures isnil(ret1) ==> forall(i, 0, len(ret0), ret0[i].Offset >= 0 && len(ret0[i].Data) <= 262144 && (ret0[i].Data == nil || fresh(ret0[i].Data)))
 //@   ensures ret0 == nil || fresh(ret0)
 //@   modifies rpos
 //@   loop 0
-//@     invariant forall(i, 0, len(frames), frames[i].Offset >= 0 && len(frames[i].Data) <= 262144)
+//@     invariant forall(i, 0, len(frames), frames[i].Offset >= 0 && len(frames[i].Data) <= 262144 && (frames[i].Data == nil || fresh(frames[i].Data)))
 //@     invariant sel(rpos, r) <= sel(rlen, r) && (frames == nil || fresh(frames))
 
 //@ func assembleCryptoFrames
-//@   props C03
+//@   props C03 C17
+//@   ensures ret == nil || fresh(ret) || (len(frames) == 1 && ret == old(frames[0].Data))
 //@   requires forall(i, 0, len(frames), frames[i].Offset >= 0 && len(frames[i].Data) <= 262144)
 //@   modifies elems(frames)
 //@   loop 0
@@ -96,6 +97,9 @@ package quic
 //@   loop 1
 //@     invariant forall(k, 0, len(frames), frames[k].Offset >= 0 && frames[k].Offset <= last.Offset)
 
+// ReadCryptoPayload leaves its argument untouched: header-protection removal and decryption
+// work on a private copy (C17: the sniffed first UDP packet is forwarded as it was)
 //@ func ReadCryptoPayload
-//@   props C03
-//@   modifies rpos, rlen, rdata, rbase, roff, packet[0:len(packet)]
+//@   props C03 C17
+//@   ensures ret0 == nil || fresh(ret0)
+//@   modifies rpos, rlen, rdata, rbase, roff
